@@ -678,6 +678,12 @@ def agenda_readers(ctx, prop):
     for f in ctx.repo.all_functions():
         if f.cls is not None and f.cls.is_subclass_of('BaseResource'):
             continue        # Resource._queue is the request queue (a different object)
+        if f.cls is not None and f.cls.is_subclass_of('Environment'):
+            # the environment's own methods own the agenda (a new accessor such as `pending` included); what matters is
+            # model code looking at it
+            n += 1
+            ctx.ob(rule, True)
+            continue
         for node in walk_local(f.node):
             is_peek = isinstance(node, ast.Call) and isinstance(node.func, ast.Attribute) and node.func.attr == 'peek'
             is_q = isinstance(node, ast.Attribute) and node.attr == '_queue'
